@@ -5,6 +5,7 @@
 import CC.Driver.Json
 import CC.Driver.LinAlg
 import CC.Spec.Circuit
+import CC.Model.MNA
 namespace CC
 open Lean
 
@@ -20,7 +21,18 @@ def getReport (j : Json) : Except String (Report String GQ) := do
   let i ← getMap j "i"
   pure ⟨lookupGQ pot, lookupGQ v, lookupGQ i⟩
 
-/-- op `spec_circuit`: residuals of (E1)–(E4) for a report -/
+def specAbsQ (r : Rat) : Rat := if r < 0 then -r else r
+/-- 1-norm of a Gaussian rational (only used to scale tolerances) -/
+def specAbs1 (z : GQ) : Rat := specAbsQ z.re + specAbsQ z.im
+
+/-- magnitude of the terms of an element-law residual (for a purely relative tolerance) -/
+def lawMag (e : Elem GQ) (v i : GQ) : Rat :=
+  match e with
+  | .norton Z V => specAbs1 v + specAbs1 V + specAbs1 (Z * i)
+  | .thevenin Y I => specAbs1 i + specAbs1 I + specAbs1 (Y * v)
+
+/-- op `spec_circuit`: residuals of (E1)–(E4) for a report, each with the magnitude of its
+terms (`*_mag`) so that the harness can apply a purely relative tolerance at any scale -/
 def h_specCircuit : Handler := fun j => do
   let N ← getNet (← j.getObjVal? "net")
   let R ← getReport (← j.getObjVal? "report")
@@ -28,8 +40,17 @@ def h_specCircuit : Handler := fun j => do
   pure (Json.mkObj [
     ("ref", jsonGQ (R.pot N.zero)),
     ("volt", Json.mkObj (N.branches.map fun b => (b.id, jsonGQ (voltResidual R b)))),
+    ("volt_mag", Json.mkObj (N.branches.map fun b =>
+      (b.id, jsonRat (specAbs1 (R.v b.id) + specAbs1 (R.pot b.n1) + specAbs1 (R.pot b.n2))))),
     ("law", Json.mkObj (N.branches.map fun b => (b.id, jsonGQ (b.e.lawResidual (R.v b.id) (R.i b.id))))),
+    ("law_mag", Json.mkObj (N.branches.map fun b => (b.id, jsonRat (lawMag b.e (R.v b.id) (R.i b.id)
+      + (match b.e with
+         | .norton _ _ => specAbs1 (R.pot b.n1) + specAbs1 (R.pot b.n2)
+         | .thevenin Y _ => specAbs1 Y * (specAbs1 (R.pot b.n1) + specAbs1 (R.pot b.n2))))))),
     ("kcl", Json.mkObj (labels.map fun n => (n, jsonGQ (kclResidual N R n)))),
+    ("kcl_mag", Json.mkObj (labels.map fun n =>
+      (n, jsonRat ((N.branches.map fun b => specAbs1 (incidence b n) *
+        (specAbs1 (R.i b.id) + specAbs1 b.e.Yfin * (specAbs1 (R.pot b.n1) + specAbs1 (R.pot b.n2)) + specAbs1 b.e.Ival)).sum)))),
     ("kinds", Json.mkObj (N.branches.map fun b => (b.id, Json.str (reprStr b.e.kind))))])
 
 /-- Sparse-tableau matrix of the *spec* (unknowns: potentials of non-reference labels,
